@@ -118,7 +118,10 @@ func mutations(valid []byte, wireBody []byte, thorough bool) []mutation {
 			c string
 			v any
 		}{{"null", nil}, {"true", true}, {"number", json.Number("123")}, {"neg", json.Number("-1")}, {"frac", json.Number("1.5")}, {"huge", json.Number("1e400")},
-			{"bigint", json.Number("99999999999999999999999")}, {"string", "zz"}, {"numstring", "12"}, {"empty-string", ""}, {"array", []any{}}, {"object", map[string]any{}}, {"nested-array", []any{[]any{"x"}}}}
+			{"bigint", json.Number("99999999999999999999999")}, {"string", "zz"}, {"numstring", "12"},
+			// numbers that fit an int64 and denote no valid value of a time or a 32-bit field
+			{"after-year-9999-seconds", json.Number("253402300800")}, {"before-year-1-seconds", json.Number("-62135596801")}, {"int64-max", json.Number("9223372036854775807")}, {"int64-min", json.Number("-9223372036854775808")},
+			{"year-0000-date", "0000-06-01"}, {"year-10000-date", "10000-01-01"}, {"empty-string", ""}, {"array", []any{}}, {"object", map[string]any{}}, {"nested-array", []any{[]any{"x"}}}}
 		for pi, p := range paths {
 			if len(p) == 0 {
 				continue
@@ -128,7 +131,7 @@ func mutations(valid []byte, wireBody []byte, thorough bool) []mutation {
 				if !thorough && (pi+ri)%3 != 0 {
 					continue
 				}
-				if fmt.Sprintf("%T", cur) == fmt.Sprintf("%T", r.v) && r.c != "huge" && r.c != "bigint" && r.c != "neg" && r.c != "frac" && r.c != "string" {
+				if fmt.Sprintf("%T", cur) == fmt.Sprintf("%T", r.v) && r.c != "huge" && r.c != "bigint" && r.c != "neg" && r.c != "frac" && r.c != "string" && !strings.Contains(r.c, "year") && !strings.HasPrefix(r.c, "int64-") {
 					continue
 				}
 				t := setAt(cloneTree(tree), p, r.v)
